@@ -395,7 +395,7 @@ PROPS = {
         "family": ("c18", {"quick": [], "thorough": []}),
         "technique": "contract-based deductive verification of the importer's sign and date helpers (Verus on functions extracted from /repo); the importer's control structure (serde-derived XML model, iterator chains) is "
                      "decided only by a bounded sweep of generated consistent statements through the real importer and okane's own book-keeping",
-        "explanation": "PARTIAL / BOUNDED.  Verus also proves, on statements SLICED out of iso_camt053::import (the function as a whole - serde model, an Either of two iterators, the extractor - is outside Verus; the slices are wrapped into functions of their free variables, R17) and checked against the real Txn setters (Txn::new, effective_date, dest_account(_option), code_option, clear_state, balance: extracted, incl. that the handed-back reference is self): an entry without details becomes a transaction signed by the ENTRY's indicator, every detail of a batched entry one signed by the DETAIL's own indicator, both dated by the value date (booking date when there is none) with the booking date as effective date when different; the opening transaction moves nothing, asserts the opening balance and is dated like the first entry; a record the rules did not clear is marked pending; find_balance (whole function, filter/map/next rewritten into a loop, R40) returns the FIRST balance record with the code, signed by its own indicator, each look-up on its own.  add_charges (whole function; `for .. continue` rewritten into an index loop advanced before the body, R6d) never touches the account amount, the date or the balance assertion of a transaction; a charge included in the entry amount only adds a charge posting (Txn::add_charge), one that is not included makes the transferred amount `amount + charge` in the same commodity and is rejected - transaction unchanged - for another commodity or a second transfer (Txn::try_add_charge_not_included).  Four textual anchors pin where those statements sit: opening transaction before the entry loop, rows in the configured order, details replacing their entry, closing balance attached after the loop to the last transaction.  Verus proves xmlnode::Amount::to_data (credit = +amount, debit = -amount, the statement's currency: the function every entry, detail, balance and charge amount goes "
+        "explanation": "PARTIAL / BOUNDED.  Verus also proves, on statements SLICED out of iso_camt053::import (the function as a whole - serde model, an Either of two iterators, the extractor - is outside Verus; the slices are wrapped into functions of their free variables, R17) and checked against the real Txn setters (Txn::new, effective_date, dest_account(_option), code_option, clear_state, balance: extracted, incl. that the handed-back reference is self): an entry without details becomes a transaction signed by the ENTRY's indicator, every detail of a batched entry one signed by the DETAIL's own indicator, both dated by the value date (booking date when there is none) with the booking date as effective date when different; the opening transaction moves nothing, asserts the opening balance and is dated like the first entry; a record the rules did not clear is marked pending; find_balance (whole function, filter/map/next rewritten into a loop, R40) returns the FIRST balance record with the code, signed by its own indicator, each look-up on its own.  add_charges (whole function; `for .. continue` rewritten into an index loop advanced before the body, R6d) never touches the account amount, the date or the balance assertion of a transaction; a charge included in the entry amount only adds a charge posting (Txn::add_charge), one that is not included makes the transferred amount `amount + charge` in the same commodity and is rejected - transaction unchanged - for another commodity or a second transfer (Txn::try_add_charge_not_included).  A detail settled in another currency (slice `detail_transfer`): the counter amount is the detail's transaction amount signed by the detail's own indicator, set only when it differs from the booked amount, and the account posting is never touched.  Four textual anchors pin where those statements sit: opening transaction before the entry loop, rows in the configured order, details replacing their entry, closing balance attached after the loop to the last transaction.  Verus proves xmlnode::Amount::to_data (credit = +amount, debit = -amount, the statement's currency: the function every entry, detail, balance and charge amount goes "
                        "through), Entry::guess_value_date (value date, else booking date) and Txn::effective_date (the booking date becomes the effective date only when it differs from the transaction date).  NOT decided by proof: iso_camt053::import itself (opening-balance transaction first, one transaction per entry or per detail, "
                        "effective date = booking date when different, closing balance asserted on the last transaction, row order) - serde-derived types and iterator chains are outside Verus, and the Kani route was "
                        "measured as intractable (DESIGN 10.3).  Those clauses are exercised, bounded, by the c18 family: 5 generated consistent statements (positive / zero / negative opening balance, entries "
